@@ -323,21 +323,29 @@ impl Admin {
         let gk = w.groups[self.g].key;
         let bk = w.banks[b].key;
         if self.emint.is_none() {
-            self.emint = Some(w.add_mint(6, TokKind::Classic).await);
+            // the rewards token is an ordinary SPL mint, a Token-2022 mint, or one with a transfer fee
+            // (what reaches the emissions vault is then less than what the funder sent)
+            let kind = match r.gen_range(0..4) {
+                0 | 1 => TokKind::Classic,
+                2 => TokKind::T22,
+                _ => TokKind::T22Fee { bps: pick(r, &[100u16, 500, 5000]), max: pick(r, &[5000u64, u64::MAX]) },
+            };
+            self.emint = Some(w.add_mint(6, kind).await);
         }
         let em = self.emint.unwrap();
         let emk = w.mints[em].key;
+        let eprog = w.mints[em].program();
         let s = self.signer_for(w, r, "emissions");
         // funding account owned by the signer
         let fund = w.new_token_account(em, s.pubkey(), 1_000_000_000_000).await;
         let bank = w.bank(b);
         if bank.emissions_mint == Pubkey::default() {
             let flags = if r.gen_bool(0.6) { pick(r, &[1u64, 2, 3, 0]) } else { rand_flags(r) };
-            let i = ix::setup_emissions(gk, s.pubkey(), bk, emk, fund, spl_token::ID, flags, pick(r, &[0u64, 1, 1000, 1_000_000, u64::MAX >> 20]), pick(r, &[0u64, 1000, 1_000_000_000]));
+            let i = ix::setup_emissions(gk, s.pubkey(), bk, emk, fund, eprog, flags, pick(r, &[0u64, 1, 1000, 1_000_000, u64::MAX >> 20]), pick(r, &[0u64, 1000, 1_000_000_000]));
             w.exec(m, &[i], &[&s]).await
         } else {
             let flags = opt!(r, 0.6, if r.gen_bool(0.5) { pick(r, &[0u64, 1, 2, 3]) } else { rand_flags(r) });
-            let i = ix::update_emissions(gk, s.pubkey(), bk, bank.emissions_mint, fund, spl_token::ID, flags, opt!(r, 0.5, pick(r, &[0u64, 1, 1000, 1_000_000])), opt!(r, 0.4, pick(r, &[1u64, 1000, 1_000_000])));
+            let i = ix::update_emissions(gk, s.pubkey(), bk, bank.emissions_mint, fund, eprog, flags, opt!(r, 0.5, pick(r, &[0u64, 1, 1000, 1_000_000])), opt!(r, 0.4, pick(r, &[1u64, 1000, 1_000_000])));
             w.exec(m, &[i], &[&s]).await
         }
     }
@@ -369,7 +377,7 @@ impl Admin {
                 1 => {
                     let u = w.accts[a].user;
                     let dst = w.users[u].tas[em];
-                    let i = ix::withdraw_emissions(gk, w.accts[a].key, auth.pubkey(), bal.bank_pk, bank.emissions_mint, dst, spl_token::ID);
+                    let i = ix::withdraw_emissions(gk, w.accts[a].key, auth.pubkey(), bal.bank_pk, bank.emissions_mint, dst, w.mints[em].program());
                     let _ = w.exec(m, &[i], &[&auth]).await;
                 }
                 2 => {
@@ -385,8 +393,8 @@ impl Admin {
                         // (the associated account of the all-zero wallet) exists
                         let _ = w.create_ata(dest, em).await;
                     }
-                    let dst = if r.gen_bool(0.8) { ix::ata(&dest, &bank.emissions_mint, &spl_token::ID) } else { w.users[0].tas[em] };
-                    let i = ix::withdraw_emissions_permissionless(gk, w.accts[a].key, bal.bank_pk, bank.emissions_mint, dst, spl_token::ID);
+                    let dst = if r.gen_bool(0.8) { ix::ata(&dest, &bank.emissions_mint, &w.mints[em].program()) } else { w.users[0].tas[em] };
+                    let i = ix::withdraw_emissions_permissionless(gk, w.accts[a].key, bal.bank_pk, bank.emissions_mint, dst, w.mints[em].program());
                     let _ = w.exec(m, &[i], &[]).await;
                 }
             }
